@@ -7,6 +7,10 @@ import subprocess
 V = os.path.dirname(os.path.dirname(os.path.abspath(__file__)))
 
 CHECKS = {
+ "C04": ("exploration",
+         "Trace_C04.tla contains the tree-level mass matrices of the nine sfermion sectors, three sneutrinos, charginos and neutralinos written from the Lagrangian (D-terms from T3 and Q, GUT-normalised g1, SLHA sign of mu) and validates, with exact products, that every reported mass/mixing pair reconstructs them (Z^T diag(m^2) Z, U^T diag(m) V, N^T diag(m) N), that mixing matrices are unitary, masses non-negative and ordered, Goldstones at index 0 with MZ, MW, the tree-level Higgs identities and chargino/neutralino trace/determinant relations hold, a tachyon is reported exactly for a negative eigenvalue of a monitored sector, and exchanging two generations exchanges the spectra",
+         "Higgs-sector matrices are not reconstructed (their soft masses are fixed internally by the tadpole equations): identities only; magnitudes sampled; tolerance 1e-11 of the matrix norm",
+         "TLA+ trace validation (Trace_C04.tla: mass matrices transcribed into the spec, exact arithmetic in Dyadic.tla)", "DESIGN 5/C04"),
  "C06": ("exploration",
          "all 2^13 sign patterns are enumerated by TLC (a seeded subset in the quick tier), each concretised with random magnitudes; every function of the three public headers and of the helper headers and every mass is recorded for the original and the flipped point and compared by TLC at relative 1e-9; the discrete sign algebra is an ASSUME of the trace spec",
          "magnitudes are sampled; trusted: TLC, Dyadic.tla, the lossless encoder",
